@@ -277,7 +277,9 @@ def apply_op(st, op, check):
             if "e" in xs[0].dims.letters:
                 return None
             probe_values = False
-            return flodym.flodym_array_stack(xs, Dimension(name="Epsi", letter="e", items=list(ITEMS["e"])))
+            from flodym.flodym_array_helper import flodym_array_stack
+
+            return flodym_array_stack(xs, Dimension(name="Epsi", letter="e", items=list(ITEMS["e"])))
         if name == "split":
             x = r[op["x"]]
             if op["letter"] not in x.dims.letters:
